@@ -118,6 +118,8 @@ static void body(void) {
         for (int i = 0; i < len; i++) g_src[256 + i] = (u8)('a' + vx_choose(2));
         n = 256 + (size_t)len; snprintf(sdesc, sizeof sdesc, "text256+ab^%d", len);
     }
+    /* the source ends exactly at the end of its heap allocation: a read past the declared source meets a redzone */
+    const u8* const S = g_src + (CAP - n); if (n) memmove(g_src + (CAP - n), g_src, (n));
     pvec_describe(&p, pdesc, sizeof pdesc);
     vx_label("entry=%d %s | %s n=%zu", entry, pdesc, sdesc, n);
 
@@ -127,26 +129,26 @@ static void body(void) {
     if (entry == 0) {
         size_t e = pvec_apply(cctx, &p);
         if (ZSTD_isError(e)) { vx_fail("setParameter rejected a vector of in-range values: %s", ZSTD_getErrorName(e)); ZSTD_freeCCtx(cctx); return; }
-        csz = ZSTD_compress2(cctx, g_dst, bound, g_src, n);
+        csz = ZSTD_compress2(cctx, g_dst, bound, S, n);
     } else if (entry == 1) {
         ZSTD_parameters zp; memset(&zp, 0, sizeof zp);
         zp.cParams.windowLog = (unsigned)p.windowLog; zp.cParams.hashLog = (unsigned)p.hashLog; zp.cParams.chainLog = (unsigned)p.chainLog;
         zp.cParams.searchLog = (unsigned)p.searchLog; zp.cParams.minMatch = (unsigned)p.minMatch; zp.cParams.targetLength = (unsigned)p.targetLength;
         zp.cParams.strategy = (ZSTD_strategy)p.strategy;
         zp.fParams.checksumFlag = p.checksum; zp.fParams.contentSizeFlag = p.contentSize; zp.fParams.noDictIDFlag = 0;
-        csz = ZSTD_compress_advanced(cctx, g_dst, bound, g_src, n, NULL, 0, zp);
-    } else if (entry == 2) csz = ZSTD_compress(g_dst, bound, g_src, n, p.level);
-    else if (entry == 3) csz = ZSTD_compressCCtx(cctx, g_dst, bound, g_src, n, p.level);
-    else if (entry == 4) csz = ZSTD_compress_usingDict(cctx, g_dst, bound, g_src, n, NULL, 0, p.level);
+        csz = ZSTD_compress_advanced(cctx, g_dst, bound, S, n, NULL, 0, zp);
+    } else if (entry == 2) csz = ZSTD_compress(g_dst, bound, S, n, p.level);
+    else if (entry == 3) csz = ZSTD_compressCCtx(cctx, g_dst, bound, S, n, p.level);
+    else if (entry == 4) csz = ZSTD_compress_usingDict(cctx, g_dst, bound, S, n, NULL, 0, p.level);
     else {
         fill_text(g_dict, sizeof g_dict, 21); dict = g_dict; dictLen = sizeof g_dict;
         ZSTD_CDict* cd = NULL;
-        if (entry == 5) { cd = ZSTD_createCDict(g_dict, sizeof g_dict, p.level); csz = ZSTD_compress_usingCDict(cctx, g_dst, bound, g_src, n, cd); }
+        if (entry == 5) { cd = ZSTD_createCDict(g_dict, sizeof g_dict, p.level); csz = ZSTD_compress_usingCDict(cctx, g_dst, bound, S, n, cd); }
         else {
             size_t e = pvec_apply(cctx, &p);
             if (ZSTD_isError(e)) { vx_fail("setParameter rejected a vector of in-range values: %s", ZSTD_getErrorName(e)); ZSTD_freeCCtx(cctx); return; }
             if (entry == 6) { cd = ZSTD_createCDict(g_dict, sizeof g_dict, p.strategy ? 3 : p.level); e = ZSTD_CCtx_refCDict(cctx, cd); } else e = ZSTD_CCtx_loadDictionary(cctx, g_dict, sizeof g_dict);
-            csz = ZSTD_isError(e) ? e : ZSTD_compress2(cctx, g_dst, bound, g_src, n);
+            csz = ZSTD_isError(e) ? e : ZSTD_compress2(cctx, g_dst, bound, S, n);
         }
         ZSTD_freeCDict(cd);
     }
@@ -164,7 +166,7 @@ static void body(void) {
             else if (!p.magicless && (v & 2)) r = ZSTD_decompress(g_out, cap, g_dst, csz); else r = ZSTD_decompressDCtx(d, g_out, cap, g_dst, csz);
             if (ZSTD_isError(r)) { vx_fail("decompress of own output failed: %s", ZSTD_getErrorName(r)); break; }
             if (r != n) { vx_fail("round trip length %zu != %zu", r, n); break; }
-            if (n && memcmp(g_out, g_src, n)) { vx_fail("round trip content differs"); break; }
+            if (n && memcmp(g_out, S, n)) { vx_fail("round trip content differs"); break; }
         }
         ZSTD_freeDCtx(d);
         if (vx_failed) return;
@@ -175,7 +177,7 @@ static void body(void) {
         c.interop = 1; c.magicless = p.magicless; c.maxBlockSize = (entry == 0 || entry >= 6) ? (size_t)p.maxBlockSize : 0;
         if (entry <= 1 || entry >= 6) { c.expectChecksum = p.checksum; c.expectFCS = p.contentSize; } else { c.expectChecksum = 0; c.expectFCS = 1; }
         c.expectDictID = 0;
-        if (ref_check(&c, g_dst, csz, dict, dictLen, g_src, n, g_scratch, CAP)) { vx_fail("conformance: %s", c.err); return; }
+        if (ref_check(&c, g_dst, csz, dict, dictLen, S, n, g_scratch, CAP)) { vx_fail("conformance: %s", c.err); return; }
         if ((entry <= 1 || entry >= 6) && p.windowLog && c.windowSize > ((size_t)1 << p.windowLog)) { vx_fail("conformance: declared window %zu larger than requested 2^%d", c.windowSize, p.windowLog); return; }
         vx_obs_u64(vx_hash(g_dst, csz));
         vx_stat_add("sequences", (long)c.nseq); vx_stat_add("blocks", (long)c.nblocks); vx_stat_max("max_offset", (long)c.maxOffset);
